@@ -386,7 +386,7 @@ def work_strings(task):
     dw = 2 * w
     pa = h.labels['bufa'] + dw  # cell 1 (cell 0 is a guard)
     pb = h.labels['bufb'] + dw
-    chars = [0x61, 0x0A, 0x00, 0xFF]
+    chars = [0x61, 0x0A, 0x00, 0xFF, 0x09, 0x0B]  # also the bytes right below / above the newline (TAB, VT)
     strings = [bytes(s) for L in range(0, 4) for s in itertools.product(chars, repeat=L)]
     strings += [b'a' * k + t for k in (14, 15, 16, 17, 31, 32, 33, 48) for t in (b'', b'\n', b'\x00b')]  # lengths around the hex-digit carries of the counters
     counts = (0, 1, 2, 3, 15, 16, 17, 31, 32, 33, 48)
